@@ -7,8 +7,9 @@ func init() {
 			"(dirichlet) stats.Dirichlet with 3-50 parameters in [0.01,100] (log-uniform, exactly 1, 1±1e-12..0.5, vectors all<1 / all=1 / all>1 / mixed), totals 1, 3..2000 or log-uniform in [1e-3,1e6], stats.Dirichlet1 with 3-400 values, and invalid parameters (a zero, a negative, an invalid last entry after valid ones, 0-2 parameters, n<=2 incl. negative n); " +
 			"(incomplete gamma) shapes in [0.01,101] and 2-8 increasing x per case among 0, the branch boundary max(1,shape)·(1±{0,1e-15..0.1}), 1, shape, tiny (>=1e-300), large (<=1e5), around the shape, log-uniform; " +
 			"(discrete gamma) shapes in [0.01,100] x 2..32 categories, GenerateRates on 0-60 sites with every gamma/discrete flag combination; " +
+			"(weights for alignments that are not freshly built) generated contents of 2-6 rows x 3-40 (120 thorough) columns with constant, tied and all-gap columns; in two cases out of three the object is produced by a drawn provenance chain of up to 3 public operations ending on exactly that content (clone, touch, rename-cycle, cut-window, select-sites, trim-gap-ends, trim-constant-ends, drop-gap-rows, concat, append, reparse-fasta), in two cases out of three a history follows: a second object derived by Sample/SubAlign/SelectSites/Clone, a length-changing in-place operation (RemoveGapSites, TrimSequences, RemoveMajorityCharacterSites, RemoveCharacterSites; whole or ends) applied to ONE of the two and the weights drawn for the OTHER, or the operation applied to the object itself first; oracle: as many weights as every row read back by index has residues (and as the construction implies for an object no operation was applied to), each finite and > 0, sum = that number; " +
 			"(boundary values of the random source) 48 seeds of math/rand whose first 4096 raw outputs contain an extreme value (top 32 bits all zero / all one, Float64() < 1e-9 or > 1-1e-9; found by an offline scan of math/rand, tools/c20_hostile_seeds.go) x 6 samplers (both weight builders, Dirichlet with all parameters 1 / mixed / below 1, Dirichlet1) with enough sites for that output to be consumed, same oracles; " +
-			"(command line) goalign build weightboot on generated fasta/phylip/multi-alignment phylip/stdin inputs, -n 1..25, --seed, -o. " +
+			"(command line) goalign build weightboot on generated fasta/phylip/multi-alignment phylip/stdin inputs (FASTA in a drawn layout: wrapped lines, blank-separated blocks, CRLF, empty lines, no final newline), -n 1..25, --seed, -o (new file, or an existing file with a longer stale content). " +
 			"Oracle: one finite weight > 0 per site, |sum-L| <= 1e-9·L; Dirichlet values finite >= 0, |sum-total| <= 1e-9·total, error exactly for the invalid vectors; " +
 			"IncompleteGamma in [0,1] (slack 1e-9), non-decreasing in x (slack 1e-7), within 1e-6 of gonum mathext.GammaIncReg and of its defining series summed to double precision (x<=600); " +
 			"DiscreteGamma rates >= -1e-9, non-decreasing (slack 1e-9), mean 1 (1e-9), each within 1e-6 of the true category mean k·[P(a+1,x_i)-P(a+1,x_{i-1})] (quantiles by bisection on gonum's function); GenerateRates rate = rate of the reported category, category in range, rate 1/category 0 without gamma; " +
@@ -31,6 +32,7 @@ func init() {
 			{Name: "dirichlet", Test: "^TestDirichlet$", Quick: 25000, Thorough: 120000, Shards: 4, TimeoutS: 300},
 			{Name: "incomplete-gamma", Test: "^TestIncompleteGamma$", Quick: 25000, Thorough: 120000, Shards: 4, TimeoutS: 300},
 			{Name: "discrete-gamma", Test: "^TestDiscreteGamma$", Quick: 20000, Thorough: 60000, Shards: 8, TimeoutS: 300},
+			{Name: "weights-history", Test: "^TestWeightsHistory$", Quick: 20000, Thorough: 100000, Shards: 4, TimeoutS: 300},
 			{Name: "hostile-seeds", Test: "^TestHostileSeeds$", Quick: 1, Thorough: 1, TimeoutS: 300},
 			{Name: "cli", Test: "^TestCLI$", Quick: 400, Thorough: 2000, Shards: 4, TimeoutS: 300},
 		},
